@@ -1413,13 +1413,17 @@ fn c12_prog_order_clear() {
     assert!(!add_q(&mut w, &q, probe), "[C12] question after records is refused");
     // 15 octets do not fit in the 2 that the OPT reservation leaves
     assert!(!add_rec(&mut w, &r4, Hint::None, true, probe), "[C12] record that would eat the OPT reservation is refused");
+    // Over-approximate the states clear_rrs can be called in: pretend the most
+    // recent owner was also the most recent name inside RDATA (an anchor into
+    // the region that clear_rrs discards), as after an NS/CNAME/MX record.
+    w.most_recent_name_in_rdata = w.most_recent_owner;
     let s = snap(&w, probe);
     w.clear_rrs();
     assert!(w.cursor == 19 && w.rr_start == 19 && w.section == Section::Question, "[C12] clear_rrs goes back to the end of the question section");
     assert!(w.qdcount == 1 && w.ancount == 0 && w.nscount == 0 && w.arcount == 1, "[C12] clear_rrs keeps the question and the reserved OPT");
     assert!(w.limit == s.limit && w.available == s.available, "[C12] clear_rrs keeps limit and reservation");
     assert!(probe >= 19 || w.octets[probe] == s.probe_val, "[C12] clear_rrs leaves header and question octets alone");
-    assert!(prior(w.qname) == s.qname && w.most_recent_owner.is_none() && w.most_recent_name_in_rdata.is_none(), "[C13] clear_rrs drops the anchors of removed names and keeps the QNAME anchor");
+    assert!(prior(w.qname) == s.qname && w.most_recent_owner.is_none() && w.most_recent_name_in_rdata.is_none(), "[C12,C13] clear_rrs drops the anchors of removed names and keeps the QNAME anchor");
     let r5 = Rec { sec: 3, ttl: ttl[3], rdata: &rd[3], ..r1 };
     assert!(add_rec(&mut w, &r5, Hint::MostRecentOwner, true, probe), "[C12] record fits after clear_rrs");
     e.recs[0] = r5;
